@@ -55,6 +55,12 @@ chk("C01", "model_checking",
     "deviation-bounded exhaustive exploration of environment answers (map order, clock, config, query interleaving) over bounded block histories of the real app, instrumented by a generated overlay",
     "DESIGN.md §3.3, §4, §5 C01", "envx")
 
+chk("C18", "model_checking",
+    "Every history of <=2 (thorough <=3) one-block steps over a 10 (12)-step alphabet (empty/full block, SSTORE non-zero / zero, SELFDESTRUCT, contract creation with a zero-valued slot, MsgDeployErc20Contract, ERC-20 approve / approve 0, vauth proof, MsgDeployStakingContract, code-less creation) in 8 (12) genesis worlds (cpc flags x 2 (3) evm/fee-market parameter configurations) is executed through FinalizeBlock/Commit on a fresh real application, exported with ExportAppStateAndValidators, imported into a fresh application by InitChain (exported state, consensus params, validators, initial height); original and re-imported chain are compared right after import and after one more identical block: key-level diff of the evm/feemarket/cpc/vauth stores, gRPC queries of all four modules, view calls through EthCall, ValidateGenesis and canonical-JSON equality of the four module sections of a second export.",
+    "Parameters are varied through genesis, not governance; block hashes, orphan code and storage of code-less accounts are outside the oracle; IBC/SDK modules are not compared; the on-disk genesis.json and CometBFT are not exercised (InitChain is called directly).",
+    "explicit-state enumeration of replayed block histories on the real app, export -> fresh-app InitChain -> twin comparison (store diff + module queries + EVM view calls + re-export)",
+    "DESIGN.md §5 C18", "seqx-replay")
+
 NOT_YET = "check not built yet in this round (planned, see DESIGN.md §9)"
 
 def main():
